@@ -67,10 +67,15 @@ unsigned char *g_jaddr; unsigned long g_jhits;   /* where byte g_j of the file w
 unsigned char *g_map; unsigned long g_map_len; int g_map_st;  /* 0 none, 1 mapped, 2 unmapped */
 unsigned g_mmap_calls, g_mmap_fail, g_munmap_calls;
 /* file written through g_wfd */
-unsigned long g_written, g_wfail, g_write_eintr; unsigned char g_wbyte;   /* byte g_j of the written stream */
+unsigned long g_written, g_wfail, g_write_eintr;
 unsigned long g_synced; unsigned g_fsync_calls, g_fsync_ok; unsigned long g_fsync_eintr;
 unsigned long g_clock, g_t_write, g_t_fsync, g_t_wclose, g_t_unlink;
 static unsigned long tick(void) { __CPROVER_assume(g_clock < (1ul << 62)); return ++g_clock; }
+/* write(2) side of the placement ghost (ldb_copy_file) */
+unsigned char *g_waddr; unsigned long g_whits; int g_jclob;
+unsigned g_wclose_fail;
+int g_fstat_ok_reg;               /* the last fstat succeeded and reported a regular file */
+unsigned long g_open_calls;       /* open(2) attempts */
 /* name operations */
 unsigned g_unlink_calls; const char *g_unlink_name; int g_unlink_rc;
 /* pthread_once / rlimit */
@@ -95,6 +100,7 @@ int verif_fcntl(int fd, int cmd, unsigned long arg);
 
 int verif_open(const char *name, int flags, unsigned mode) {
   __CPROVER_assert(name != NULL, "open(2): a file name is given");
+  __CPROVER_assume(g_open_calls < (1ul << 62)); g_open_calls++;     /* fewer than 2^62 opens happen */
   __CPROVER_assert(IS_RD(flags) || ((flags) & O_ACCMODE) == O_WRONLY, "open(2): read-only or write-only");
   __CPROVER_assert(IS_RD(flags) ? g_rst != 1 : g_wst != 1, "open(2): no second descriptor of the same kind while one is open (it would be leaked)");
   if (nondet_int()) {
@@ -104,8 +110,9 @@ int verif_open(const char *name, int flags, unsigned mode) {
     g_open_errno = g_errno;
     return -1;
   }
-  if (IS_RD(flags)) { g_rst = 1; g_ropens++; g_rname = name; return g_rfd; }
+  if (IS_RD(flags)) { g_rst = 1; g_ropens++; g_rname = name; g_pos = 0; return g_rfd; }   /* a new descriptor reads from the start */
   g_wst = 1; g_wopens++; g_wname = name; g_wflags = flags & ~O_CLOEXEC; g_wmode = mode;
+  g_written = 0; g_synced = 0;         /* the copy's destination is created empty (O_CREAT | O_EXCL) */
   return g_wfd;
 }
 int verif_fcntl(int fd, int cmd, unsigned long arg) {
@@ -124,7 +131,7 @@ int close(int fd) {
     g_wst = 2; g_wcloses++; g_t_wclose = tick();
   }
   /* the descriptor is gone even when close reports an error (Linux) */
-  if (nondet_int()) { g_errno = nondet_int(); g_close_fail++; return -1; }
+  if (nondet_int()) { g_errno = nondet_int(); g_close_fail++; if (fd == g_wfd) g_wclose_fail++; return -1; }
   return 0;
 }
 
@@ -135,6 +142,9 @@ static size_t deliver(void *buf, size_t n, unsigned long at) {
   avail = g_fsize - at;
   k = nondet_size();
   __CPROVER_assume(k >= 1 && k <= n && k <= avail);    /* short reads allowed, progress guaranteed before EOF */
+  /* the place byte g_j went to is overwritten by this delivery before it was written out (copy) */
+  if (g_jhits > g_whits && __CPROVER_same_object(g_jaddr, buf) && __CPROVER_POINTER_OFFSET(g_jaddr) >= __CPROVER_POINTER_OFFSET(buf) &&
+      (size_t)(__CPROVER_POINTER_OFFSET(g_jaddr) - __CPROVER_POINTER_OFFSET(buf)) < k) g_jclob = 1;
   if (g_j >= at && g_j - at < k) { g_jaddr = (unsigned char *)buf + (g_j - at); g_jhits++; }
   return k;
 }
@@ -182,8 +192,10 @@ off_t lseek(int fd, off_t off, int whence) {
 int fstat(int fd, struct stat *st) {
   __CPROVER_assert(fd == g_rfd && g_rst == 1, "fstat(2) on the open read descriptor");
   g_fstat_calls++;
+  g_fstat_ok_reg = 0;
   if (nondet_int()) { g_errno = nondet_int(); g_fstat_fail++; return -1; }
   st->st_size = (off_t)g_fsize; st->st_mode = g_fmode;
+  g_fstat_ok_reg = S_ISREG(g_fmode) ? 1 : 0;
   return 0;
 }
 void *mmap(void *addr, size_t len, int prot, int flags, int fd, off_t off) {
@@ -229,7 +241,7 @@ ssize_t write(int fd, const void *buf, size_t n) {
   }
   k = nondet_size();
   __CPROVER_assume(k >= 1 && k <= n);
-  if (g_j >= g_written && g_j - g_written < k) g_wbyte = ((const unsigned char *)buf)[g_j - g_written];
+  if (g_j >= g_written && g_j - g_written < k) { g_waddr = (unsigned char *)buf + (g_j - g_written); g_whits++; }
   g_written += k; g_t_write = tick();
   return (ssize_t)k;
 }
@@ -245,7 +257,11 @@ static int fsync_model(int fd) {
   return 0;
 }
 int fsync(int fd) { return fsync_model(fd); }
-int fdatasync(int fd) { return fsync_model(fd); }
+int fdatasync(int fd) {
+  __CPROVER_assert(fd == g_wfd && g_wst == 1, "fdatasync on the open write descriptor");
+  if (nondet_int()) { g_errno = ENOSYS; return -1; }      /* not implemented: the code falls back to fsync */
+  return fsync_model(fd);
+}
 int unlink(const char *name) {
   g_unlink_calls++; g_unlink_name = name; g_t_unlink = tick();
   g_unlink_rc = nondet_int() ? -1 : 0;
@@ -253,9 +269,45 @@ int unlink(const char *name) {
   return g_unlink_rc;
 }
 
+#ifdef ENVR_SYMBOLIC_MALLOC
+/* malloc(n) inside the repository text: NULL or an object of SOME size m >= n (CBMC's own malloc, called with a
+   symbolic size).  m == n is one of the cases, so an access beyond the requested size is still caught; what it
+   avoids is a constant-size 1 MiB object (ldb_copy_file's buffer), which CBMC bit-blasts (conversion never ends). */
+static void *verif_malloc(size_t n) {
+  size_t m = nondet_size();
+  __CPROVER_assume(m >= n);
+  return (malloc)(m);
+}
+#define malloc(n) verif_malloc(n)
+#endif
+
+#ifdef ENVR_CHILDREN_MODELS
+/* memcpy / realloc inside the repository text, for ldb_get_children (CBMC's library versions copy symbolic-length
+   arrays; three of them in one formula exhaust memory).  Ghost-index models that OVER-approximate the copy:
+   the destination object becomes arbitrary, except that the bytes / list slots the harness looks at (character
+   g_c and the last byte of a name; slot g_k_slot of the list) are copied faithfully.  Bounds are asserted. */
+size_t g_c;                 /* arbitrary character position in a name */
+extern unsigned long g_k_slot;
+unsigned g_reallocs, g_realloc_moves; void *g_list_obj; size_t g_list_cap;
+static void *verif_memcpy(void *dst, const void *src, size_t n) {
+  __CPROVER_assert(__CPROVER_r_ok(src, n) && __CPROVER_w_ok(dst, n), "memcpy: source readable and destination writable for n bytes");
+  if (n > 0) {
+    unsigned char vc = g_c < n ? ((const unsigned char *)src)[g_c] : 0, vl = ((const unsigned char *)src)[n - 1];
+    __CPROVER_havoc_object(dst);
+    if (g_c < n) ((unsigned char *)dst)[g_c] = vc;
+    ((unsigned char *)dst)[n - 1] = vl;
+  }
+  return dst;
+}
+static void *verif_realloc(void *p, size_t n);
+#define memcpy(d, s, n) verif_memcpy(d, s, n)
+#define realloc(p, n) verif_realloc(p, n)
+#endif
+
 /* strlen: CBMC's library loop is replaced by a specification that OVER-approximates it: some index n inside the
    object with s[n] == 0 (the first NUL is one of them).  Callers therefore see every behaviour of the real strlen. */
 size_t g_strlen_ret;   /* ghost: what the last strlen returned */
+#ifndef ENVR_LIB_STRLEN
 size_t strlen(const char *s) {
   size_t n = nondet_size();
   __CPROVER_assume(__CPROVER_r_ok(s, n + 1) && n < ((size_t)1 << 40));
@@ -263,8 +315,36 @@ size_t strlen(const char *s) {
   g_strlen_ret = n;
   return n;
 }
+#endif
 
 #include "util/env.c"
+
+#ifdef ENVR_CHILDREN_MODELS
+#undef memcpy
+#undef realloc
+/* realloc(p, n), p != NULL, n > 0: NULL (p untouched), or a NEW object of some size >= n that holds the old content
+   (faithfully at slot g_k_slot, arbitrary elsewhere = over-approximation) while p is freed; or, ENVR_REALLOC_INPLACE,
+   p itself when the object CBMC allocated for it is large enough (objects come with a symbolic size >= the request) */
+static void *verif_realloc(void *p, size_t n) {
+  char **q; size_t m, old = __CPROVER_OBJECT_SIZE(p);
+  __CPROVER_assert(p != NULL && n > 0 && __CPROVER_POINTER_OFFSET(p) == 0, "realloc of the start of a live heap object to a non-zero size");
+  g_reallocs++;
+  if (nondet_int()) return NULL;
+#ifdef ENVR_REALLOC_INPLACE
+  if (n > old) return NULL;
+  g_list_cap = n;
+  return p;
+#else
+  m = nondet_size(); __CPROVER_assume(m >= n);
+  q = (malloc)(m);
+  if (q == NULL) return NULL;
+  if ((g_k_slot + 1) * sizeof(char *) <= old && (g_k_slot + 1) * sizeof(char *) <= n) q[g_k_slot] = ((char **)p)[g_k_slot];
+  free(p);
+  g_realloc_moves++; g_list_obj = q; g_list_cap = n;
+  return q;
+#endif
+}
+#endif
 
 /* status of a failed system call: errno, or LDB_IOERR when errno is 0 - never LDB_OK */
 #define IS_SYSERR(rc) ((rc) != LDB_OK && (rc) == (g_errno == 0 ? LDB_IOERR : g_errno))
@@ -274,7 +354,7 @@ size_t strlen(const char *s) {
 #define AVAIL(at, len) ((at) >= g_fsize ? 0ul : MIN_((unsigned long)(len), g_fsize - (at)))
 
 /* ---------------------------------------------------------------- ldb_open */
-#define GHOST_OPEN g_errno, g_open_errno, g_rst, g_wst, g_ropens, g_wopens, g_rname, g_wname, g_wflags, g_wmode, g_open_eintr, g_open_einval, g_setfd_calls
+#define GHOST_OPEN g_open_calls, g_pos, g_written, g_synced, g_errno, g_open_errno, g_rst, g_wst, g_ropens, g_wopens, g_rname, g_wname, g_wflags, g_wmode, g_open_eintr, g_open_einval, g_setfd_calls
 /* -1 with errno set (not EINTR) and no descriptor created, or the one new descriptor of the requested kind,
    opened with the name, flags and mode that were asked for */
 int c_ldb_open(const char *name, int flags, uint32_t mode)
@@ -282,8 +362,11 @@ __CPROVER_requires(name != NULL && FD_RI && (IS_RD(flags) || (flags & O_ACCMODE)
 __CPROVER_requires(IS_RD(flags) ? g_rst != 1 : g_wst != 1)
 __CPROVER_assigns(GHOST_OPEN)
 __CPROVER_ensures(__CPROVER_return_value == -1 || __CPROVER_return_value == (IS_RD(flags) ? g_rfd : g_wfd))
+__CPROVER_ensures(g_open_calls > __CPROVER_old(g_open_calls))
 __CPROVER_ensures(__CPROVER_return_value == -1 ==> (g_errno != EINTR && g_errno == g_open_errno && g_rst == __CPROVER_old(g_rst) && g_wst == __CPROVER_old(g_wst) &&
-   g_ropens == __CPROVER_old(g_ropens) && g_wopens == __CPROVER_old(g_wopens)))
+   g_ropens == __CPROVER_old(g_ropens) && g_wopens == __CPROVER_old(g_wopens) && g_pos == __CPROVER_old(g_pos) && g_written == __CPROVER_old(g_written) && g_synced == __CPROVER_old(g_synced)))
+__CPROVER_ensures((__CPROVER_return_value != -1 && IS_RD(flags)) ==> (g_pos == 0 && g_written == __CPROVER_old(g_written) && g_synced == __CPROVER_old(g_synced)))
+__CPROVER_ensures((__CPROVER_return_value != -1 && !IS_RD(flags)) ==> (g_pos == __CPROVER_old(g_pos) && g_written == 0 && g_synced == 0))
 __CPROVER_ensures((__CPROVER_return_value != -1 && IS_RD(flags)) ==> (g_rst == 1 && g_ropens == __CPROVER_old(g_ropens) + 1 && g_rname == name &&
    g_wst == __CPROVER_old(g_wst) && g_wopens == __CPROVER_old(g_wopens)))
 __CPROVER_ensures((__CPROVER_return_value != -1 && !IS_RD(flags)) ==> (g_wst == 1 && g_wopens == __CPROVER_old(g_wopens) + 1 && g_wname == name &&
@@ -298,7 +381,7 @@ void h_ldb_open(void) {
 }
 
 /* ---------------------------------------------------------------- ldb_read */
-#define GHOST_READ g_jaddr, g_jhits, g_errno, g_rd_errno, g_pos, g_rfail, g_read_eintr, g_read_calls
+#define GHOST_READ g_jaddr, g_jhits, g_jclob, g_errno, g_rd_errno, g_pos, g_rfail, g_read_eintr, g_read_calls
 #define READ_PRE(fd, dst, len) ((fd) == g_rfd && g_rst == 1 && ((len) == 0 || __CPROVER_w_ok(dst, len)) && (len) <= FSIZE_MAX && g_fsize <= FSIZE_MAX && g_pos <= FSIZE_MAX)
 /* sequential read: the result is exactly the number of bytes between the position and the end of the file,
    capped by len (short reads and EINTR are absorbed); -1 iff a read(2) failed */
@@ -322,7 +405,7 @@ void h_ldb_read(void) {
 
 /* --------------------------------------------------------------- ldb_pread */
 #ifdef HAVE_PREAD
-#define GHOST_PREAD g_jaddr, g_jhits, g_errno, g_rd_errno, g_rfail, g_read_eintr, g_read_calls
+#define GHOST_PREAD g_jaddr, g_jhits, g_jclob, g_errno, g_rd_errno, g_rfail, g_read_eintr, g_read_calls
 int64_t c_ldb_pread(int fd, void *dst, size_t len, uint64_t off)
 __CPROVER_requires(fd == g_rfd && g_rst == 1 && (len == 0 || __CPROVER_w_ok(dst, len)) && len <= FSIZE_MAX && g_fsize <= FSIZE_MAX && off <= (uint64_t)INT64_MAX)
 __CPROVER_assigns(GHOST_PREAD, __CPROVER_object_whole(dst))
@@ -351,6 +434,8 @@ void h_ldb_pread(void) {
 #define RF_IS_CLOSED(f) ((f)->mapped == 0 && (f)->fd == -1 && (f)->filename == NULL && (f)->limiter == NULL && (f)->base == NULL && (f)->length == 0)
 /* the parts of a file object are separate objects */
 #define RF_SEP(f) ((f)->filename == NULL || (!__CPROVER_same_object((f)->filename, f) && (!(f)->mapped || !__CPROVER_same_object((f)->filename, g_map)))) && (!(f)->mapped || !__CPROVER_same_object(g_map, f))
+/* at least one slot of the limiter is taken (so it can be given back) */
+#define LIM_HELD(l) ((l)->acquires_allowed >= 0 && (l)->acquires_allowed < (l)->max_acquires)
 #define LIM_RI(l) ((l)->acquires_allowed >= 0 && (l)->acquires_allowed <= (l)->max_acquires)
 
 static ldb_rfile_t *alloc_rfile(void) {
@@ -485,21 +570,28 @@ void h_limiter_release(void) { ldb_limiter_t lim; lim.acquires_allowed = nondet_
 /* close releases everything the object owns exactly once - descriptor, mapping (exactly the mapped range),
    limiter slot, name - and leaves an object on which a second close does nothing; only a failing close(2)
    makes the result an error */
-int c_rfile_close(ldb_rfile_t *file)
-__CPROVER_requires(__CPROVER_rw_ok(file, sizeof(*file)) && FD_RI)
-__CPROVER_requires((RF_IS_FD(file) && (file->limiter == NULL || file->limiter == &ldb_fd_limiter)) || RF_IS_NAME(file) || RF_IS_MAP(file) || RF_IS_CLOSED(file))
-__CPROVER_requires(file->limiter == NULL || (file->limiter->acquires_allowed >= 0 && file->limiter->acquires_allowed < file->limiter->max_acquires))
-__CPROVER_requires((file->filename == NULL || __CPROVER_is_freeable(file->filename)) && RF_SEP(file))
-__CPROVER_requires(!file->mapped || __CPROVER_is_freeable(g_map))
-__CPROVER_assigns(*file, GHOST_CLOSE_R, g_errno, g_map_st, g_munmap_calls, GHOST_LIM)
-__CPROVER_frees(file->filename; file->mapped: file->base)
-__CPROVER_ensures(RF_IS_CLOSED(file))
-__CPROVER_ensures(__CPROVER_old(file->fd) != -1 ? (g_rst == 2 && g_rcloses == __CPROVER_old(g_rcloses) + 1) : (g_rst == __CPROVER_old(g_rst) && g_rcloses == __CPROVER_old(g_rcloses)))
-__CPROVER_ensures(__CPROVER_old(file->mapped) ? (g_map_st == 2 && g_munmap_calls == __CPROVER_old(g_munmap_calls) + 1) : (g_map_st == __CPROVER_old(g_map_st) && g_munmap_calls == __CPROVER_old(g_munmap_calls)))
-__CPROVER_ensures(ldb_fd_limiter.acquires_allowed == __CPROVER_old(ldb_fd_limiter.acquires_allowed) + (__CPROVER_old(file->limiter) == &ldb_fd_limiter ? 1 : 0))
-__CPROVER_ensures(ldb_mmap_limiter.acquires_allowed == __CPROVER_old(ldb_mmap_limiter.acquires_allowed) + (__CPROVER_old(file->limiter) == &ldb_mmap_limiter ? 1 : 0))
+#define RFILE_CLOSE_SPEC \
+__CPROVER_requires(__CPROVER_rw_ok(file, sizeof(*file)) && FD_RI) \
+__CPROVER_requires((RF_IS_FD(file) && (file->limiter == NULL || file->limiter == &ldb_fd_limiter)) || RF_IS_NAME(file) || RF_IS_MAP(file) || RF_IS_CLOSED(file)) \
+__CPROVER_requires((file->limiter != &ldb_fd_limiter || LIM_HELD(&ldb_fd_limiter)) && (file->limiter != &ldb_mmap_limiter || LIM_HELD(&ldb_mmap_limiter))) \
+__CPROVER_requires((file->filename == NULL || __CPROVER_is_freeable(file->filename)) && RF_SEP(file)) \
+__CPROVER_requires(!file->mapped || __CPROVER_is_freeable(g_map)) \
+__CPROVER_assigns(*file, GHOST_CLOSE_R, g_errno, g_map_st, g_munmap_calls, GHOST_LIM) \
+__CPROVER_frees(file->filename; file->mapped: file->base) \
+__CPROVER_ensures(RF_IS_CLOSED(file)) \
+__CPROVER_ensures(__CPROVER_old(file->fd) != -1 ? (g_rst == 2 && g_rcloses == __CPROVER_old(g_rcloses) + 1) : (g_rst == __CPROVER_old(g_rst) && g_rcloses == __CPROVER_old(g_rcloses))) \
+__CPROVER_ensures(__CPROVER_old(file->mapped) ? (g_map_st == 2 && g_munmap_calls == __CPROVER_old(g_munmap_calls) + 1) : (g_map_st == __CPROVER_old(g_map_st) && g_munmap_calls == __CPROVER_old(g_munmap_calls))) \
+__CPROVER_ensures(ldb_fd_limiter.acquires_allowed == __CPROVER_old(ldb_fd_limiter.acquires_allowed) + (__CPROVER_old(file->limiter) == &ldb_fd_limiter ? 1 : 0)) \
+__CPROVER_ensures(ldb_mmap_limiter.acquires_allowed == __CPROVER_old(ldb_mmap_limiter.acquires_allowed) + (__CPROVER_old(file->limiter) == &ldb_mmap_limiter ? 1 : 0)) \
 __CPROVER_ensures((__CPROVER_return_value == LDB_OK) == (g_close_fail == __CPROVER_old(g_close_fail)))
-__CPROVER_ensures(__CPROVER_old(file->filename) == NULL || __CPROVER_was_freed(__CPROVER_old(file->filename)))
+int c_rfile_close(ldb_rfile_t *file)
+RFILE_CLOSE_SPEC
+;
+/* the same, plus: the name is really released (was_freed cannot be part of a carrier that is used in a replace: its
+   side condition 'the pointer is in the frees clause' is evaluated even when the name is NULL) */
+int c_rfile_close_freed(ldb_rfile_t *file)
+RFILE_CLOSE_SPEC
+__CPROVER_ensures(__CPROVER_old(file->filename) != NULL ==> __CPROVER_was_freed(__CPROVER_old(file->filename)))
 ;
 static void setup_any_rfile(ldb_rfile_t *file) {
   if (nondet_int()) {
@@ -508,7 +600,10 @@ static void setup_any_rfile(ldb_rfile_t *file) {
   } else {
     g_map = NULL;
   }
-  if (nondet_int()) { file->filename = malloc(4); __CPROVER_assume(file->filename != NULL); }
+  if (nondet_int()) { file->filename = malloc(4); __CPROVER_assume(file->filename != NULL); } else file->filename = NULL;
+  /* pointers are given real targets (a dereference through an unconstrained pointer value is not resolved by symex) */
+  file->limiter = nondet_int() ? &ldb_fd_limiter : (nondet_int() ? &ldb_mmap_limiter : NULL);
+  file->base = nondet_int() ? g_map : NULL;
 }
 void h_rfile_close(void) {
   ldb_rfile_t *file = alloc_rfile();
@@ -517,20 +612,24 @@ void h_rfile_close(void) {
   CANARY();
 }
 /* destroy = close + the object itself is freed, once */
-void c_rfile_destroy(ldb_rfile_t *file)
-__CPROVER_requires(__CPROVER_rw_ok(file, sizeof(*file)) && FD_RI && __CPROVER_is_freeable(file))
-__CPROVER_requires((RF_IS_FD(file) && (file->limiter == NULL || file->limiter == &ldb_fd_limiter)) || RF_IS_NAME(file) || RF_IS_MAP(file) || RF_IS_CLOSED(file))
-__CPROVER_requires(file->limiter == NULL || (file->limiter->acquires_allowed >= 0 && file->limiter->acquires_allowed < file->limiter->max_acquires))
-__CPROVER_requires((file->filename == NULL || __CPROVER_is_freeable(file->filename)) && RF_SEP(file))
-__CPROVER_requires(!file->mapped || __CPROVER_is_freeable(g_map))
-__CPROVER_assigns(*file, GHOST_CLOSE_R, g_errno, g_map_st, g_munmap_calls, GHOST_LIM)
-__CPROVER_frees(file; file->filename; file->mapped: file->base)
-__CPROVER_ensures(__CPROVER_was_freed(file))
-__CPROVER_ensures(__CPROVER_old(file->fd) != -1 ? (g_rst == 2 && g_rcloses == __CPROVER_old(g_rcloses) + 1) : (g_rst == __CPROVER_old(g_rst) && g_rcloses == __CPROVER_old(g_rcloses)))
-__CPROVER_ensures(__CPROVER_old(file->mapped) ? (g_map_st == 2 && g_munmap_calls == __CPROVER_old(g_munmap_calls) + 1) : (g_map_st == __CPROVER_old(g_map_st) && g_munmap_calls == __CPROVER_old(g_munmap_calls)))
-__CPROVER_ensures(ldb_fd_limiter.acquires_allowed == __CPROVER_old(ldb_fd_limiter.acquires_allowed) + (__CPROVER_old(file->limiter) == &ldb_fd_limiter ? 1 : 0))
+#define RFILE_DESTROY_SPEC \
+__CPROVER_requires(__CPROVER_rw_ok(file, sizeof(*file)) && FD_RI && __CPROVER_is_freeable(file)) \
+__CPROVER_requires((RF_IS_FD(file) && (file->limiter == NULL || file->limiter == &ldb_fd_limiter)) || RF_IS_NAME(file) || RF_IS_MAP(file) || RF_IS_CLOSED(file)) \
+__CPROVER_requires((file->limiter != &ldb_fd_limiter || LIM_HELD(&ldb_fd_limiter)) && (file->limiter != &ldb_mmap_limiter || LIM_HELD(&ldb_mmap_limiter))) \
+__CPROVER_requires((file->filename == NULL || __CPROVER_is_freeable(file->filename)) && RF_SEP(file)) \
+__CPROVER_requires(!file->mapped || __CPROVER_is_freeable(g_map)) \
+__CPROVER_assigns(*file, GHOST_CLOSE_R, g_errno, g_map_st, g_munmap_calls, GHOST_LIM) \
+__CPROVER_frees(file; file->filename; file->mapped: file->base) \
+__CPROVER_ensures(__CPROVER_old(file->fd) != -1 ? (g_rst == 2 && g_rcloses == __CPROVER_old(g_rcloses) + 1) : (g_rst == __CPROVER_old(g_rst) && g_rcloses == __CPROVER_old(g_rcloses))) \
+__CPROVER_ensures(__CPROVER_old(file->mapped) ? (g_map_st == 2 && g_munmap_calls == __CPROVER_old(g_munmap_calls) + 1) : (g_map_st == __CPROVER_old(g_map_st) && g_munmap_calls == __CPROVER_old(g_munmap_calls))) \
+__CPROVER_ensures(ldb_fd_limiter.acquires_allowed == __CPROVER_old(ldb_fd_limiter.acquires_allowed) + (__CPROVER_old(file->limiter) == &ldb_fd_limiter ? 1 : 0)) \
 __CPROVER_ensures(ldb_mmap_limiter.acquires_allowed == __CPROVER_old(ldb_mmap_limiter.acquires_allowed) + (__CPROVER_old(file->limiter) == &ldb_mmap_limiter ? 1 : 0))
-__CPROVER_ensures(__CPROVER_old(file->filename) == NULL || __CPROVER_was_freed(__CPROVER_old(file->filename)))
+void c_rfile_destroy(ldb_rfile_t *file)
+RFILE_DESTROY_SPEC
+;
+void c_rfile_destroy_freed(ldb_rfile_t *file)
+RFILE_DESTROY_SPEC
+__CPROVER_ensures(__CPROVER_was_freed(file))
 ;
 void h_rfile_destroy(void) {
   ldb_rfile_t *file = alloc_rfile();
@@ -544,10 +643,10 @@ int c_seqfile_create(const char *filename, ldb_rfile_t **file)
 __CPROVER_requires(filename != NULL && __CPROVER_w_ok(file, sizeof(*file)) && FD_RI && g_rst != 1)
 __CPROVER_assigns(GHOST_OPEN, *file)
 __CPROVER_ensures(__CPROVER_return_value == LDB_OK ==> (__CPROVER_is_fresh(*file, sizeof(ldb_rfile_t)) && (*file)->fd == g_rfd && g_rst == 1 && g_ropens == __CPROVER_old(g_ropens) + 1 &&
-   g_rname == filename && (*file)->filename == NULL && (*file)->limiter == NULL && (*file)->mapped == 0 && (*file)->base == NULL && (*file)->length == 0))
-__CPROVER_ensures(__CPROVER_return_value != LDB_OK ==> (*file == __CPROVER_old(*file) && g_rst == __CPROVER_old(g_rst) && g_ropens == __CPROVER_old(g_ropens) &&
+   g_rname == filename && g_pos == 0 && (*file)->filename == NULL && (*file)->limiter == NULL && (*file)->mapped == 0 && (*file)->base == NULL && (*file)->length == 0))
+__CPROVER_ensures(__CPROVER_return_value != LDB_OK ==> (*file == __CPROVER_old(*file) && g_rst == __CPROVER_old(g_rst) && g_ropens == __CPROVER_old(g_ropens) && g_pos == __CPROVER_old(g_pos) &&
    __CPROVER_return_value == (g_open_errno == 0 ? LDB_IOERR : g_open_errno)))
-__CPROVER_ensures(g_wst == __CPROVER_old(g_wst) && g_wopens == __CPROVER_old(g_wopens))
+__CPROVER_ensures(g_wst == __CPROVER_old(g_wst) && g_wopens == __CPROVER_old(g_wopens) && g_written == __CPROVER_old(g_written) && g_synced == __CPROVER_old(g_synced))
 ;
 void h_seqfile_create(void) {
   ldb_rfile_t *file;
@@ -604,5 +703,293 @@ void h_randfile_create(void) {
       }
     }
   }
+  CANARY();
+}
+
+/* =================================================================== whole-file helpers */
+/* ---------------------------------------------------------------- ldb_fsync */
+#define GHOST_FSYNC g_errno, g_fsync_calls, g_fsync_ok, g_synced, g_fsync_eintr, g_t_fsync, g_clock
+#define CLOCK_OK (g_clock <= (1ul << 62) && g_t_write <= g_clock && g_t_fsync <= g_clock && g_t_wclose <= g_clock && g_t_unlink <= g_clock)
+/* 0: everything accepted by write(2) so far is on stable storage (one successful fdatasync/fsync, the last event);
+   otherwise nothing is promised and errno is the error (never EINTR: interrupted calls are retried) */
+int c_ldb_fsync(int fd)
+__CPROVER_requires(fd == g_wfd && g_wst == 1 && CLOCK_OK)
+__CPROVER_assigns(GHOST_FSYNC)
+__CPROVER_ensures(__CPROVER_return_value == 0 || __CPROVER_return_value == -1)
+__CPROVER_ensures(__CPROVER_return_value == 0 ==> (g_fsync_ok == __CPROVER_old(g_fsync_ok) + 1 && g_synced == g_written && g_t_fsync == g_clock && g_clock > __CPROVER_old(g_clock)))
+__CPROVER_ensures(__CPROVER_return_value != 0 ==> (g_fsync_ok == __CPROVER_old(g_fsync_ok) && g_synced == __CPROVER_old(g_synced) && g_errno != EINTR && g_clock == __CPROVER_old(g_clock) && g_t_fsync == __CPROVER_old(g_t_fsync)))
+__CPROVER_ensures(g_clock <= (1ul << 62))
+;
+void h_ldb_fsync(void) {
+  ldb_fsync(g_wfd);
+  CANARY();
+}
+
+/* ------------------------------------------------------------ ldb_copy_file */
+/* write(2) side of the placement ghost: g_waddr = the address the byte written at stream position g_j was taken
+   from, g_whits = how often position g_j was written; g_jclob = the place byte g_j was delivered to has been
+   delivered to again before it was written out */
+
+#define COPY_FLAGS (O_WRONLY | O_CREAT | O_EXCL)
+#define GHOST_COPY g_open_calls, g_pos, g_written, g_synced, g_errno, g_open_errno, g_rst, g_wst, g_ropens, g_wopens, g_rname, g_wname, g_wflags, g_wmode, \
+  g_open_eintr, g_open_einval, g_setfd_calls, g_jaddr, g_jhits, g_jclob, g_rd_errno, g_rfail, g_read_eintr, g_read_calls, \
+  g_fsync_calls, g_fsync_ok, g_fsync_eintr, g_t_fsync, g_clock, g_rcloses, g_wcloses, g_close_fail, g_wclose_fail, g_fstat_calls, g_fstat_fail, g_fstat_ok_reg, \
+  g_wfail, g_write_eintr, g_t_write, g_t_wclose, g_t_unlink, g_unlink_calls, g_unlink_name, g_unlink_rc, g_waddr, g_whits
+/* copy `from` to a NEW file `to`:
+   OK      => the destination was created exclusively (never over an existing file), received exactly the g_fsize bytes of
+              the source in order (placement ghost), was fsynced after the last write and closed without error; both
+              descriptors closed exactly once; nothing was removed;
+   failure => no descriptor is left open; a destination created by this call is removed again (after it was closed);
+              an existing destination (open failed) is never removed; the source is never written or removed;
+              the result is an error whenever open / fstat / read / write / fsync / close(destination) failed */
+int c_copy_file(const char *from, const char *to)
+/* ghost baseline: the placement counters start at zero */
+__CPROVER_requires(from != NULL && to != NULL && from != to && FD_RI && g_rst != 1 && g_wst != 1 && g_fsize <= FSIZE_MAX && CLOCK_OK && g_jhits == 0 && g_whits == 0 && !g_jclob)
+__CPROVER_assigns(GHOST_COPY)
+__CPROVER_ensures(g_open_calls > __CPROVER_old(g_open_calls))
+__CPROVER_ensures(g_rst != 1 && g_wst != 1 && g_rcloses - __CPROVER_old(g_rcloses) == g_ropens - __CPROVER_old(g_ropens) && g_wcloses - __CPROVER_old(g_wcloses) == g_wopens - __CPROVER_old(g_wopens))
+__CPROVER_ensures(g_ropens - __CPROVER_old(g_ropens) <= 1 && g_wopens - __CPROVER_old(g_wopens) <= 1)
+__CPROVER_ensures(g_ropens != __CPROVER_old(g_ropens) ==> g_rname == from)
+__CPROVER_ensures(g_wopens != __CPROVER_old(g_wopens) ==> (g_wname == to && g_wflags == COPY_FLAGS && g_wmode == 0644 && g_ropens != __CPROVER_old(g_ropens) && g_fstat_ok_reg))
+__CPROVER_ensures(__CPROVER_return_value == LDB_OK ==> (g_ropens == __CPROVER_old(g_ropens) + 1 && g_wopens == __CPROVER_old(g_wopens) + 1 &&
+   g_written == g_fsize && g_synced == g_written && g_fsync_ok == __CPROVER_old(g_fsync_ok) + 1 && g_t_write < g_t_fsync && g_t_fsync < g_t_wclose &&
+   g_rfail == __CPROVER_old(g_rfail) && g_wfail == __CPROVER_old(g_wfail) && g_wclose_fail == __CPROVER_old(g_wclose_fail) && g_unlink_calls == __CPROVER_old(g_unlink_calls)))
+__CPROVER_ensures((g_rfail != __CPROVER_old(g_rfail) || g_wfail != __CPROVER_old(g_wfail) || g_wclose_fail != __CPROVER_old(g_wclose_fail)) ==> __CPROVER_return_value != LDB_OK)
+__CPROVER_ensures(__CPROVER_return_value != LDB_OK ==> (g_unlink_calls - __CPROVER_old(g_unlink_calls) == g_wopens - __CPROVER_old(g_wopens)))
+__CPROVER_ensures((__CPROVER_return_value != LDB_OK && g_wopens != __CPROVER_old(g_wopens)) ==> (g_unlink_name == to && g_t_unlink > g_t_wclose))
+/* placement: every byte of the destination comes from where the byte at the same offset of the source was delivered */
+__CPROVER_ensures((__CPROVER_return_value == LDB_OK && g_j < g_fsize) ==> (g_jhits == 1 && g_whits == 1 && g_waddr == g_jaddr && !g_jclob))
+;
+void h_copy_file(void) {
+  ldb_copy_file(g_name_a, g_name_b);
+  CANARY();
+}
+
+/* ------------------------------------------------------------ ldb_link_file */
+unsigned g_link_calls; int g_link_rc, g_link_errno; const char *g_link_from, *g_link_to;
+int link(const char *from, const char *to) {
+  g_link_calls++; g_link_from = from; g_link_to = to;
+  g_link_rc = nondet_int() ? -1 : 0;
+  if (g_link_rc) { g_errno = nondet_int(); g_link_errno = g_errno; }
+  return g_link_rc;
+}
+/* hard links unsupported / impossible for this pair of names (POSIX link(2), Linux, BSD, IBM i): fall back to a copy */
+#define LINK_UNSUPPORTED(e) ((e) == EXDEV || (e) == EMLINK || (e) == ENOSYS || (e) == EPERM || (e) == EOPNOTSUPP || (e) == ENOTSUP)
+unsigned g_copy_calls; int g_copy_rc; const char *g_copy_from, *g_copy_to;
+/* call-protocol view of ldb_copy_file for ldb_link_file (functional contract: c_copy_file) */
+void h_link_file(void) {
+  int rc;
+  g_errno = nondet_int(); g_link_calls = 0; g_copy_calls = 0; g_unlink_calls = 0;
+  __CPROVER_assume(FD_RI && g_rst != 1 && g_wst != 1 && g_fsize <= FSIZE_MAX && CLOCK_OK);
+  g_jhits = 0; g_whits = 0; g_jclob = 0;
+  { unsigned ro = g_ropens, wo = g_wopens; unsigned long oc = g_open_calls;
+  rc = ldb_link_file(g_name_a, g_name_b);
+  CHECK(g_link_calls == 1 && g_link_from == g_name_a && g_link_to == g_name_b, "link_file: link(from, to) is tried first, once");
+  if (g_link_rc == 0) {
+    CHECK(rc == LDB_OK && g_open_calls == oc && g_unlink_calls == 0, "link_file: link succeeded: OK, nothing copied, nothing removed");
+  } else if (LINK_UNSUPPORTED(g_link_errno)) {
+    CHECK(g_open_calls > oc, "link_file: hard links not possible (EXDEV, EMLINK, ENOSYS, EPERM, EOPNOTSUPP, ENOTSUP): the file is copied instead");
+    CHECK(g_ropens == ro || g_rname == g_name_a, "link_file: the copy reads the link source");
+    CHECK(rc != LDB_OK || (g_wopens == wo + 1 && g_wname == g_name_b && g_written == g_fsize && g_synced == g_written), "link_file: fallback OK only after a complete, synced copy to the link target");
+  } else {
+    CHECK(rc == (g_link_errno == 0 ? LDB_IOERR : g_link_errno) && rc != LDB_OK && g_open_calls == oc && g_unlink_calls == 0, "link_file: any other link error is reported as it is; nothing copied, nothing removed");
+  }
+  }
+  CANARY();
+}
+
+/* ------------------------------------------- one-system-call wrappers (status mapping) */
+unsigned g_nm_calls; int g_nm_rc, g_nm_errno; const char *g_nm_a, *g_nm_b; unsigned g_nm_mode; int g_nm_kind;
+static int name_call(int kind, const char *a, const char *b, unsigned mode) {
+  g_nm_calls++; g_nm_kind = kind; g_nm_a = a; g_nm_b = b; g_nm_mode = mode;
+  g_nm_rc = nondet_int() ? -1 : 0;
+  if (g_nm_rc) { g_errno = nondet_int(); g_nm_errno = g_errno; }
+  return g_nm_rc;
+}
+int rename(const char *from, const char *to) { return name_call(1, from, to, 0); }
+int mkdir(const char *path, mode_t mode) { return name_call(2, path, NULL, mode); }
+int rmdir(const char *path) { return name_call(3, path, NULL, 0); }
+int access(const char *path, int mode) { return name_call(4, path, NULL, (unsigned)mode); }
+int stat(const char *path, struct stat *st) {
+  int r = name_call(5, path, NULL, 0);
+  if (r == 0) { st->st_size = (off_t)g_fsize; st->st_mode = g_fmode; }
+  return r;
+}
+#define STATUS_OF_CALL(rc) (g_nm_rc == 0 ? (rc) == LDB_OK : ((rc) != LDB_OK && (rc) == (g_nm_errno == 0 ? LDB_IOERR : g_nm_errno)))
+void h_name_ops(void) {
+  int which = nondet_int(), rc;
+  uint64_t size = 77;
+  g_errno = nondet_int(); g_nm_calls = 0; g_unlink_calls = 0; g_fsize = nondet_ulong(); g_link_calls = 0; g_open_calls = 0; g_fmode = (unsigned)nondet_int();
+  __CPROVER_assume(g_fsize <= FSIZE_MAX);
+  if (which == 0) {
+    rc = ldb_rename_file(g_name_a, g_name_b);
+    CHECK(g_nm_calls == 1 && g_nm_kind == 1 && g_nm_a == g_name_a && g_nm_b == g_name_b, "rename_file: one rename(from, to), arguments in this order");
+    CHECK(STATUS_OF_CALL(rc), "rename_file: OK iff rename succeeded, else its errno (LDB_IOERR if errno is 0)");
+    CHECK(g_unlink_calls == 0, "rename_file: nothing is removed");
+  } else if (which == 1) {
+    rc = ldb_remove_file(g_name_a);
+    CHECK(g_unlink_calls == 1 && g_unlink_name == g_name_a && g_nm_calls == 0, "remove_file: one unlink of the named file");
+    CHECK(g_unlink_rc == 0 ? rc == LDB_OK : (rc != LDB_OK && rc == (g_errno == 0 ? LDB_IOERR : g_errno)), "remove_file: OK iff unlink succeeded, else its errno");
+  } else if (which == 2) {
+    rc = ldb_create_dir(g_name_a);
+    CHECK(g_nm_calls == 1 && g_nm_kind == 2 && g_nm_a == g_name_a && g_nm_mode == 0755, "create_dir: one mkdir(name, 0755)");
+    CHECK(STATUS_OF_CALL(rc), "create_dir: OK iff mkdir succeeded, else its errno (EEXIST is reported, not swallowed)");
+  } else if (which == 3) {
+    rc = ldb_remove_dir(g_name_a);
+    CHECK(g_nm_calls == 1 && g_nm_kind == 3 && g_nm_a == g_name_a, "remove_dir: one rmdir(name)");
+    CHECK(STATUS_OF_CALL(rc), "remove_dir: OK iff rmdir succeeded, else its errno");
+  } else if (which == 4) {
+    rc = ldb_file_exists(g_name_a);
+    CHECK(g_nm_calls == 1 && g_nm_kind == 4 && g_nm_a == g_name_a && g_nm_mode == (unsigned)F_OK, "file_exists: one access(name, F_OK)");
+    CHECK(rc == (g_nm_rc == 0 ? 1 : 0), "file_exists: 1 iff access succeeded");
+  } else {
+    rc = ldb_file_size(g_name_a, &size);
+    CHECK(g_nm_calls == 1 && g_nm_kind == 5 && g_nm_a == g_name_a, "file_size: one stat(name)");
+    CHECK(STATUS_OF_CALL(rc), "file_size: OK iff stat succeeded, else its errno");
+    CHECK(rc == LDB_OK ? size == g_fsize : size == 77, "file_size: the size stat reported; untouched on failure");
+  }
+  CHECK(g_link_calls == 0 && g_open_calls == 0, "no other file-system call is made");
+  CANARY();
+}
+
+/* ------------------------------------------------------------ ldb_read_file */
+/* ldb_buffer_reset / ldb_buffer_append are ghost models here (sizes and order of the appended pieces; buffer.c itself:
+   buf.* units).  Placement: when the piece that contains the address byte g_j of the file was delivered to is
+   appended, the model records at which offset of the result that byte lands (g_app_off). */
+ldb_buffer_t *g_data; unsigned long g_appends, g_app_hits, g_app_off; unsigned g_resets;
+void ldb_buffer_reset(ldb_buffer_t *z) {
+  __CPROVER_assert(z == g_data, "read_file: the caller's buffer is reset");
+  g_resets++; z->size = 0;
+}
+void ldb_buffer_append(ldb_buffer_t *z, const uint8_t *xp, size_t xn) {
+  __CPROVER_assert(z == g_data && g_resets == 1, "read_file: pieces are appended to the caller's buffer, after it was emptied");
+  __CPROVER_assert(xn > 0 && __CPROVER_r_ok(xp, xn), "read_file: an appended piece is non-empty and readable");
+  if (g_jhits > g_app_hits && __CPROVER_same_object(g_jaddr, xp) && g_jaddr >= xp && g_jaddr < xp + xn) {
+    g_app_hits++; g_app_off = z->size + (unsigned long)(g_jaddr - xp);
+  }
+  z->size += xn; g_appends++;
+}
+void h_read_file(void) {
+  ldb_buffer_t data;
+  int rc;
+  unsigned ro, rcl; unsigned long rf, size0;
+  __CPROVER_assume(FD_RI && g_rst != 1 && g_fsize <= (1ul << 47));   /* the file fits the address space */
+  g_data = &data; g_resets = 0; g_appends = 0; g_app_hits = 0; g_jhits = 0; g_jclob = 0;
+  size0 = data.size;
+  ro = g_ropens; rcl = g_rcloses; rf = g_rfail;
+
+  rc = ldb_read_file(g_name_a, &data);
+
+  if (g_ropens == ro) {
+    CHECK(rc != LDB_OK && rc == (g_open_errno == 0 ? LDB_IOERR : g_open_errno), "read_file: a file that cannot be opened is reported with open's error");
+    CHECK(g_resets == 0 && data.size == size0 && g_rcloses == rcl, "read_file: open failed: the caller's buffer is untouched");
+  } else {
+    CHECK(g_ropens == ro + 1 && g_rname == g_name_a, "read_file: the named file is opened once, read-only");
+    CHECK(g_rst == 2 && g_rcloses == rcl + 1, "read_file: the descriptor is closed exactly once on every path");
+    CHECK(g_resets == 1, "read_file: the buffer is emptied first (old content never survives in front of the file)");
+    if (rc == LDB_OK) {
+      CHECK(data.size == g_fsize && g_rfail == rf, "read_file OK: the WHOLE file was read (size = file size), no read failed");
+      CHECK(g_j >= g_fsize || (g_jhits == 1 && g_app_hits == 1 && g_app_off == g_j), "read_file OK: byte j of the file was delivered once and appended once, at offset j of the result");
+    } else {
+      CHECK(g_rfail == rf + 1 && rc == (g_rd_errno == 0 ? LDB_IOERR : g_rd_errno), "read_file fails only because a read failed, and reports that error (a short file is never an error, a read error never a short file)");
+      CHECK(data.size <= g_fsize, "read_file failed: the buffer holds a prefix");
+    }
+  }
+  CANARY();
+}
+
+/* ------------------------------------------------ ldb_get_children / ldb_free_children */
+/* directory model: g_nent entries; readdir hands them out in order through ONE static struct dirent (as libc does);
+   every entry is ".", ".." or a regular name with arbitrary content.  ONE arbitrary entry index g_k is tracked
+   (ghost-index method): its kind and name are fixed before the call, the model records how many regular entries
+   came before it (= the slot it must occupy in the result). */
+static char g_dirobj;
+static struct dirent g_dirent;
+struct dirent nondet_dirent(void);
+unsigned long g_nent, g_dpos, g_nreg, g_k, g_k_slot;
+int g_dir_st, g_k_kind, g_k_seen; unsigned g_opendir_calls, g_closedir_calls, g_readdir_err;
+const char *g_dir_name;
+char g_kname[256];
+#define IS_DOT(s) ((s)[0] == '.' && ((s)[1] == 0 || ((s)[1] == '.' && (s)[2] == 0)))
+#ifndef CHILDREN_MAX
+#define CHILDREN_MAX 3
+#endif
+#ifndef NAME_MAX_B
+#define NAME_MAX_B 255      /* names are terminated at or before this index */
+#endif
+DIR *opendir(const char *path) {
+  g_opendir_calls++; g_dir_name = path;
+  if (nondet_int()) { g_errno = nondet_int(); return NULL; }
+  __CPROVER_assert(g_dir_st != 1, "opendir: one directory stream at a time");
+  g_dir_st = 1; g_dpos = 0; g_nreg = 0;
+  return (DIR *)&g_dirobj;
+}
+struct dirent *readdir(DIR *d) {
+  int kind;
+  __CPROVER_assert(d == (DIR *)&g_dirobj && g_dir_st == 1, "readdir on the open directory stream");
+  __CPROVER_assert(g_errno == 0, "errno is cleared before readdir (the only way to tell the end of the directory from an error)");
+  if (g_dpos >= g_nent) return NULL;                                  /* end of directory: errno untouched */
+  if (nondet_int()) { g_errno = nondet_int(); __CPROVER_assume(g_errno != 0); g_readdir_err++; return NULL; }
+  { size_t n; for (n = 0; n < NAME_MAX_B; n++) g_dirent.d_name[n] = (char)nondet_int(); }   /* the buffer is reused: old name overwritten */
+  if (g_dpos == g_k) {
+    kind = g_k_kind; g_k_seen++; g_k_slot = g_nreg;
+    { size_t n; for (n = 0; n <= NAME_MAX_B; n++) g_dirent.d_name[n] = g_kname[n]; }
+  } else {
+    kind = nondet_int();
+    if (kind == 1) { g_dirent.d_name[0] = '.'; g_dirent.d_name[1] = 0; }
+    else if (kind == 2) { g_dirent.d_name[0] = '.'; g_dirent.d_name[1] = '.'; g_dirent.d_name[2] = 0; }
+    else { kind = 0; g_dirent.d_name[NAME_MAX_B] = 0; __CPROVER_assume(!IS_DOT(g_dirent.d_name)); }
+  }
+  if (kind == 0) g_nreg++;
+  g_dpos++;
+  return &g_dirent;
+}
+int closedir(DIR *d) {
+  __CPROVER_assert(d == (DIR *)&g_dirobj && g_dir_st == 1, "closedir: the stream is open (closed exactly once)");
+  g_dir_st = 2; g_closedir_calls++;
+  return nondet_int() ? -1 : 0;
+}
+static void setup_dir(void) {
+  size_t n;
+  g_errno = nondet_int(); g_nent = nondet_ulong(); g_k = nondet_ulong(); g_k_kind = nondet_int();
+  g_dir_st = 0; g_k_seen = 0; g_opendir_calls = g_closedir_calls = g_readdir_err = 0; g_dpos = 0; g_nreg = 0;
+  __CPROVER_assume(g_k_kind >= 0 && g_k_kind <= 2);
+  if (g_k_kind == 1) { g_kname[0] = '.'; g_kname[1] = 0; }
+  else if (g_k_kind == 2) { g_kname[0] = '.'; g_kname[1] = '.'; g_kname[2] = 0; }
+  else { for (n = 0; n < NAME_MAX_B; n++) g_kname[n] = (char)nondet_int(); g_kname[NAME_MAX_B] = 0; __CPROVER_assume(!IS_DOT(g_kname)); }
+}
+void h_children_b(void) {
+  char **list = (char **)&g_dirobj;
+  int rc;
+  size_t c = nondet_size();
+#ifdef ENVR_CHILDREN_MODELS
+  g_c = c;
+#endif
+  setup_dir();
+  __CPROVER_assume(g_nent <= CHILDREN_MAX);
+  rc = ldb_get_children(g_name_a, &list);
+  CHECK(g_opendir_calls <= 1 && (g_opendir_calls == 0 || g_dir_name == g_name_a), "get_children: the named directory is opened at most once");
+  CHECK(g_dir_st != 1 && g_closedir_calls == (g_dir_st == 2 ? 1u : 0u), "get_children: the directory stream is closed exactly once on every path, if it was opened");
+  if (rc < 0) {
+    CHECK(rc == -1 && list == NULL, "get_children failed: -1 and no list");
+  } else {
+    CHECK(g_dir_st == 2 && g_dpos == g_nent && g_readdir_err == 0, "get_children OK: the directory was read to its end without error (a readdir error is never taken for the end)");
+    CHECK((unsigned long)rc == g_nreg, "get_children OK: the count is the number of entries other than . and ..");
+    CHECK(list != NULL && __CPROVER_rw_ok(list, (size_t)rc * sizeof(char *)), "get_children OK: a list with room for that many names");
+    if (g_k < g_nent) {
+      CHECK(g_k_seen == 1, "every entry is delivered once");
+      if (g_k_kind == 0) {
+        CHECK(g_k_slot < (unsigned long)rc, "a regular entry has a slot in the list");
+        CHECK(list[g_k_slot] != g_dirent.d_name && list[g_k_slot] != g_kname, "the name in the list is a private copy (readdir's buffer is reused)");
+      }
+    }
+  }
+  if (rc >= 0 && g_k < g_nent && g_k_kind == 0) {
+    size_t e = 0;
+    /* the copy equals the entry's name as a string: same characters up to and including the first terminator */
+    while (e < NAME_MAX_B && g_kname[e] != 0) e++;
+    CHECK(c > e || list[g_k_slot][c] == g_kname[c], "the name in the list is the entry's name (arbitrary character position up to the terminator)");
+  }
+  if (rc >= 0) ldb_free_children(list, rc);
   CANARY();
 }
